@@ -23,6 +23,7 @@ TOL12 = 1e-12
 GL_EPS_DEN = 10 ** 13          # certificate: every moment of an extracted GL rule within 1e-13
 LIMIT_1D_MS = 10_000
 LIMIT_2D_MS = 20_000
+NODE_COUNTS = {}
 EVAL_BUDGET = {1: 2_000_000, 2: 5_000_000}     # integrand evaluations per call (machine-independent part of "bounded time")
 
 
@@ -267,7 +268,7 @@ def method_accuracy(m, f, a, b):
     S = f.scale(a, b)
     base = TOL12 * max(S, 1e-300)
     if m["m"] == "simpson":
-        n = m["divs"] + m["divs"] % 2 - 2
+        n = NODE_COUNTS.get(m["divs"], m["divs"] + m["divs"] % 2 - 2)     # divisions the code really uses (phase 0)
         if isinstance(f, Poly):
             if len(f.cs) <= 4:
                 return base, "exact(degree<=3)"
@@ -1018,6 +1019,7 @@ def run(ctx):
     rng = random.Random(ctx.seed)
     obs0 = run_jobs(ctx, binp, count_jobs(), nproc=4)
     counts = {int(k[1:]): o["evals"] - 1 for k, o in obs0.items() if o.get("ok") and o.get("evals", 0) > 1}
+    NODE_COUNTS.update(counts)
     C = build_cases(ctx, rng, counts=counts)
     obs = run_jobs(ctx, binp, C.jobs)
     try:
@@ -1073,7 +1075,7 @@ def run(ctx):
         "Simpson exact on complex cubics, every interval, every accepted divs (1-D) / even divs>=4 (2-D)": "proved (translated kernels over R/C) + measured 1e-12 (binary64) + Q-model correspondence",
         "n-point Gauss-Legendre exact to degree 2n-1": "proved per extracted rule: kernel-checked moment certificate (1e-13) + C12_certified_rule_exact, re-extracted every run; binary64 evaluation measured",
         "adaptive Simpson exact on cubics (a<=b), Richardson step exact to degree 5, accepted panel error <= eps": "proved",
-        "smooth oscillatory integrands within textbook bound / tolerance": "validated_only (oracle on amp*exp(ikx))",
+        "smooth oscillatory integrands within textbook bound / tolerance": "proved for Simpson 1-D on amp*exp(ikx) (C12_simpson_expi_bound: |b-a| h^4 k^4 |amp|/180, every interval/k/amplitude/accepted divs); Gauss-Legendre bound and the adaptive methods' tolerances validated_only (oracle on amp*exp(ikx))",
         "reversing the interval negates": "proved for Simpson 1-D/2-D (all integrands); proved within 2*bound for certified Gauss-Legendre on polynomials; REFUTED for adaptive Simpson (C12_adaptive_symmetric, Findings/C12_adaptive_reverse.v); Gauss-Kronrod, Clenshaw-Curtis validated_only",
         "linear in the integrand": "proved for every fixed rule (Simpson 1-D/2-D, Gauss-Legendre adapter); adaptive methods validated_only",
         "2-D separable = product of 1-D": "proved for tensor rules (C12_tensor, C12_simpson2d_product_of_1d); others validated_only",
